@@ -37,11 +37,12 @@ type event struct {
 }
 
 type scenCase struct {
-	Sc     scenario
-	Fed    []pipe.FedInfo
-	Desc   string
-	Race   bool
-	Mirror bool
+	Sc         scenario
+	Fed        []pipe.FedInfo
+	Desc       string
+	Race       bool
+	Mirror     bool
+	DeadMirror bool // mirroring towards a target every send to which fails
 }
 
 type witness struct {
@@ -104,6 +105,14 @@ func buildScenario(seed int64, mode string, idx int, thorough bool) *scenCase {
 	if mode == "mirror" {
 		n = g.Range(100, 300)
 	}
+	// a mirror target nothing can be sent to (limited broadcast without SO_BROADCAST: every send fails, the mirror
+	// workers give up, the mirror queues - up to 3 x 1000 slots - fill, and from then on every copy is refused): the
+	// workers' "queue full" path runs, with alternating datagram sizes behind it
+	if mode == "alias" && (proto == "ipfix" || proto == "sflow") && variant%3 == 1 {
+		sc.Sc.MirrorAddr, sc.Sc.MirrorPort = "255.255.255.255", 9
+		n = g.Range(3300, 3700)
+		sc.DeadMirror = true
+	}
 	churnAt := map[int]bool{}
 	if mode == "account" && workers >= 2 && g.Chance(1, 2) {
 		for k := g.Range(1, 4); k > 0; k-- {
@@ -151,6 +160,11 @@ func buildScenario(seed int64, mode string, idx int, thorough bool) *scenCase {
 				feed(e, tr.Data(e, id+1, k%2 == 0), "data", phase)
 			}
 		}
+		if n > 900 && k%800 == 799 {
+			// long scenarios: join the workers and drain the outgoing queue (1000 slots) before it can fill
+			sc.Sc.Steps = append(sc.Sc.Steps, step{Op: "barrier"})
+			phase++
+		}
 		if churnAt[k] {
 			if g.Bool() {
 				sc.Sc.Steps = append(sc.Sc.Steps, step{Op: "quit_worker", N: g.Range(1, 3)})
@@ -169,6 +183,9 @@ func buildScenario(seed int64, mode string, idx int, thorough bool) *scenCase {
 		f.Key = tr.Key(f.Addr, f.ID, f.Dgram)
 	}
 	sc.Desc = fmt.Sprintf("%s #%d %s workers=%d gomaxprocs=%d udp-size=%d exporters=%d datagrams=%d", mode, idx, proto, workers, procs, size, nexp, len(sc.Fed))
+	if sc.DeadMirror {
+		sc.Desc += " mirror-target-unreachable"
+	}
 	return sc
 }
 
@@ -414,6 +431,18 @@ func checkPublished(run *mon.Run, prop string, sc *scenCase, ro runOut, idx int,
 		}
 		if prop == "C13" && seen[key] == 2 {
 			run.Violation("pipe:"+proto+":published-twice", fmt.Sprintf("%s: datagram %d was published twice", sc.Desc, f.ID), wit("duplicate"))
+		}
+	}
+	if prop == "C12" || prop == "C05" {
+		// "byte-for-byte what decoding that datagram on its own would produce": if that is a message, nothing at
+		// all is not it (the queue never holds more than 800 messages between two barriers, so it never fills)
+		for k, f := range byKey {
+			if seen[k] == 0 {
+				w := wit("decoding the datagram on its own yields a message; the pipeline published nothing for it")
+				w.Dgram, w.Exporter, w.Want = mon.Hex(f.Dgram), mon.Hex(f.Addr), clip(string(f.Expect), 600)
+				run.Violation("pipe:"+proto+":nothing-published", fmt.Sprintf("%s: datagram %d (%s, %d octets): decoded on its own it yields a message, in the pipeline nothing was published for it (%d published of %d expected)", sc.Desc, f.ID, f.Kind, len(f.Dgram), published, len(byKey)), w)
+				break
+			}
 		}
 	}
 	if prop == "C13" {
